@@ -1,4 +1,4 @@
-HOOK_COMMITS = []
+HOOK_COMMITS = ["8150921"]
 
 CHECKS = [
  {"id": "C01", "level": "model_checking",
@@ -21,6 +21,16 @@ CHECKS = [
   "design_ref": "DESIGN.md section 4 C15",
   "note": "Ideal signatures; the only signature-level transformations modelled are (r,s)->(r,n-s) for ECDSA and S->S+L for ed25519.",
   "technique": "TLA+ spec + TLC; replay of TLC behaviours and TLC validation of recorded traces"},
+ {"id": "C03", "level": "model_checking",
+  "text": "One TLC state is a (token, appended block, authorizer) triple from a scope-complete universe satisfying the property's premise; the invariant Monotone (accepted extended token => accepted original with the same policy; failed checks persist; what earlier blocks and the authorizer see is unchanged) is checked on the spec for every triple, and each exported triple is built and authorized on the real library: both results, worlds and queries must equal the spec's and Monotone is asserted directly on the real results.",
+  "design_ref": "DESIGN.md section 4 C03",
+  "note": "Bounded universes (<=3 blocks, one rule and one check per program plus the appended block's own); non-binding limits; replayed subset is a seeded sample of the checked universe in the quick tier.",
+  "technique": "TLA+ spec of scoped Datalog + TLC enumeration of program universes; every exported state replayed on the real authorizer"},
+ {"id": "C04", "level": "model_checking",
+  "text": "The Biscuit authorization semantics (scope -> trusted origins, least fixpoint with provenance, per-kind check rule, ordered policies, query scoping) is written in TLA+ (Datalog.tla, Authorizer.tla); TLC enumerates scope-complete program universes and computes the exact result (matched policy, ordered failed checks, world with origins, three queries) for each; every exported program is built with the real builders, keys and third-party protocol and the real results must be identical.",
+  "design_ref": "DESIGN.md section 4 C04",
+  "note": "Error-free programs under non-binding limits; `trusting previous` in the authorizer modelled as implemented; quick tier replays a seeded sample of the `checks` universe and all of `alts`.",
+  "technique": "TLA+ spec of scoped Datalog + TLC enumeration of program universes; every exported state replayed on the real authorizer"},
 ]
 
 _TODO = "check not built yet in this round; will be decided with the TLA+ specification (see DESIGN.md section 4)"
